@@ -159,7 +159,8 @@ func isHeapKey(k string) bool {
 func fullName(fn *types.Func) string { return fn.Origin().FullName() }
 
 var pureStd = map[string]bool{"time": true, "strings": true, "strconv": true, "math": true, "path": true, "path/filepath": true, "unicode": true,
-	"net/url": true, "sort": false, "bytes": true, "slices": false, "github.com/samber/lo": false}
+	"net/url": true, "sort": false, "bytes": true, "slices": true, "golang.org/x/exp/slices": true, "github.com/samber/lo": false,
+	"crypto/sha256": true, "encoding/hex": true}
 
 func (e *Exec) callFunc(fn *types.Func, recvExpr ast.Expr, sel *types.Selection, call *ast.CallExpr, c *Ctx, want int, inst []types.Type) []Term {
 	name := fullName(fn)
@@ -917,6 +918,12 @@ func (e *Exec) applyContract(ct *Contract, fn *types.Func, sig *types.Signature,
 		}
 	}
 	bound, cfr := e.contractScope(ct, fn, sig, recv, args)
+	if fn != nil {
+		if fi := e.prog.funcs[fullName(fn)]; fi != nil {
+			cfr.fi = fi // type parameters of the callee are resolved through its substitution at this call
+			cfr.subst = subst
+		}
+	}
 	pre := c.st.clone()
 	// pre-conditions
 	for _, rq := range ct.Requires {
@@ -1266,6 +1273,28 @@ func (e *Exec) specCall(call *ast.CallExpr, c *Ctx) Term {
 			return Term{fmt.Sprintf("(and (= %s %s) (forall ((%s Int)) (=> (and (<= 0 %s) (< %s %s)) (= (select %s %s) (select %s %s)))))",
 				e.seqLen(a), e.seqLen(b), bv, bv, bv, e.seqLen(a), e.seqArr(a), bv, e.seqArr(b), bv), tBool}
 		}
+		if c.fr.pkg != nil && c.fr.pkg.Types != nil {
+			if fn, ok := c.fr.pkg.Types.Scope().Lookup(id.Name).(*types.Func); ok && (e.prog.isPure(fn) || e.prog.contractFor(fn) == nil) {
+				// a Go function used as an observer in a specification: the same uninterpreted symbol as a pure call in code
+				if !e.prog.isPure(fn) {
+					e.errorf("%s: spec calls Go function %s which is not declared pure", e.curPos, id.Name)
+				}
+				var args []Term
+				sig := fn.Type().(*types.Signature)
+				for i, a := range call.Args {
+					v := e.eval(a, c)
+					if i < sig.Params().Len() {
+						v = e.coerce(v, e.prog.TypeOf(sig.Params().At(i).Type(), nil), c.st)
+					}
+					args = append(args, v)
+				}
+				rt := tInt
+				if sig.Results().Len() > 0 {
+					rt = e.prog.TypeOf(sig.Results().At(0).Type(), nil)
+				}
+				return e.uninterp(fmt.Sprintf("fn!%s!0", mangle(shortName(fullName(fn)))), args, rt)
+			}
+		}
 		if gf, ok := e.prog.ghostFuncs[id.Name]; ok {
 			var args []Term
 			for i, a := range call.Args {
@@ -1303,6 +1332,34 @@ func (e *Exec) specCall(call *ast.CallExpr, c *Ctx) Term {
 				return e.coerce(r, gf.Ret, c.st)
 			}
 			return e.uninterp("gf!"+gf.Name, args, gf.Ret)
+		}
+	}
+	// package-qualified pure function (strconv.ParseFloat, ...)
+	if se, ok := call.Fun.(*ast.SelectorExpr); ok {
+		if pid, ok := se.X.(*ast.Ident); ok && c.fr.pkg != nil {
+			if _, isLocal := c.fr.names[pid.Name]; !isLocal && c.bound[pid.Name].T == nil {
+				for _, imp := range c.fr.pkg.Types.Imports() {
+					if imp.Name() != pid.Name {
+						continue
+					}
+					if fn, ok := imp.Scope().Lookup(se.Sel.Name).(*types.Func); ok {
+						var args []Term
+						sig := fn.Type().(*types.Signature)
+						for i, a := range call.Args {
+							v := e.eval(a, c)
+							if i < sig.Params().Len() {
+								v = e.coerce(v, e.prog.TypeOf(sig.Params().At(i).Type(), nil), c.st)
+							}
+							args = append(args, v)
+						}
+						rt := tInt
+						if sig.Results().Len() > 0 {
+							rt = e.prog.TypeOf(sig.Results().At(0).Type(), nil)
+						}
+						return e.uninterp(fmt.Sprintf("fn!%s!0", mangle(shortName(fullName(fn)))), args, rt)
+					}
+				}
+			}
 		}
 	}
 	// method-call syntax on spec values: pure observers and time arithmetic
